@@ -60,8 +60,11 @@ TDelete ==
 
 TSync == Ev.e = "sync" /\ SyncDir /\ Same
 
+\* (traces taken from the system calls of MmapDirectory say whether the temporary file was fsynced
+\* before it was renamed onto meta.json; a version whose data is not durable is not accepted)
 TMeta ==
   /\ Ev.e = "meta"
+  /\ ("synced" \in DOMAIN Ev => Ev.synced)
   /\ AWriteMeta(SeqToSet(Ev.files), Ev.op)
   /\ metaSegs' = SeqToSet(Ev.segs)
   /\ UNCHANGED <<callIdx, ackedIdx, regs, segOf>>
